@@ -135,7 +135,9 @@ C17_Fail(e) == { c \in C17_Conj : ~C17_Holds(c, e) }
 (***************************************************************************)
 (* C10  Mock code is generated only when enabled and is test-gated unless  *)
 (*      exported.                                                          *)
-(*  in : a lattice point [macro, feature, target, unimock, mockall, export *)
+(*  in : a lattice point [macro, feature, target ("fnconc" = a function    *)
+(*        with a concrete dependency: its trait is itself entraited by a   *)
+(*        nested invocation), unimock, mockall, export                     *)
 (*        \in {"absent","true","false"}, mock_api \in {"absent","present"}] *)
 (*  o  : [expanded; unimock / mockall: is the derivation attached to the   *)
 (*        trait; ugated / mgated: is it wrapped in cfg_attr(test, ..);     *)
@@ -146,7 +148,7 @@ C17_Fail(e) == { c \in C17_Conj : ~C17_Holds(c, e) }
 Explicit(v, default) == IF v = "absent" THEN default ELSE v = "true"
 C10_Exporting(in) == Explicit(in.export, in.macro = "entrait_export")
 C10_UnimockOn(in) == /\ Explicit(in.unimock, in.feature)
-                     /\ (in.target \in {"fn", "mod"} => in.mock_api = "present")
+                     /\ (in.target \in {"fn", "fnconc", "mod"} => in.mock_api = "present")
 C10_MockallOn(in) == Explicit(in.mockall, FALSE)
 C10_Conj == {"unimock-iff-enabled", "mockall-iff-enabled", "gated-unless-exporting",
              "nontest-build-unimock", "test-build-unimock", "nontest-build-mockall", "test-build-mockall"}
